@@ -141,11 +141,11 @@ CHECKS.update({
     "C08": ("exploration", "bounded-exhaustive metamorphic enumeration read(write(x)) ~ x over constructor-built data spaces through every writer x reader pair, and all short texts through both readers against a datum-grammar recogniser",
             "Data are built inside Scheme by constructors (never through the reader): doubles by bit pattern over an exponent x mantissa "
             "boundary lattice incl. subnormals, infinities, NaNs; every Unicode scalar value as character, 1-character string and "
-            "1-character symbol; all strings and symbols up to length 3 over a 20-character quoting alphabet; integer/rational lattices; a "
+            "1-character symbol; all strings and symbols up to length 3 (4 thorough) over a 20-character quoting alphabet; integer/rational lattices; a "
             "complex grid; small bytevectors; all trees to a depth; all rooted graphs of <= 3 (4 thorough) pair/vector nodes incl. sharing and "
             "cycles. Each is written by native write, (scheme write) write and write-shared; every distinct text is read by native read and "
             "(scheme read) and compared with the original by a structural comparison in the driver (flonums by their 64 bits, graphs by "
-            "bisimulation). All texts up to length 4 over a 30-symbol reader alphabet: where a conservative recogniser of the R7RS 7.1 grammar "
+            "bisimulation). All texts up to length 3 (4 thorough) over a 30-symbol reader alphabet: where a conservative recogniser of the R7RS 7.1 grammar "
             "says the text is a datum, both readers must return structurally equal values; elsewhere only totality is required.",
             "The recogniser is conservative (texts it does not recognise are only checked for totality); write-simple on cyclic data is "
             "excluded (non-terminating by specification).", "DESIGN.md §4 C08"),
